@@ -53,7 +53,7 @@ def validate_traces(chk, prop, trace_path):
     lines = open(trace_path).read().splitlines()
     starts = [i for i, l in enumerate(lines) if '"ev":"Reset"' in l]
     total = len(starts)
-    r = vlib.run_tlc("net/EngineTrace", cfg="EngineTrace.cfg", workers=1, timeout=1800,
+    r = vlib.run_tlc("net/EngineTrace", cfg="EngineTrace.cfg", workers=1, timeout=3600,
                      env={"VERIF_TRACE": trace_path})
     chk.add_tlc("validate:EngineTrace", r)
     if not r.ok:
@@ -142,7 +142,7 @@ def run_engine(chk, prop, files, select=None, mc=(), mc_thorough=(), must_fail=(
     out = vlib.scratch("engine-")
     pf = os.path.join(out, "plans.ndjson")
     vlib.write_ndjson(pf, plans)
-    vlib.run_driver(chk, drv, ["gen", out, pf], timeout=1500,
+    vlib.run_driver(chk, drv, ["gen", out, pf], timeout=4500 if thorough else 1500,
                     keep=lambda rec: driver_prop(rec) == prop)
     tp = os.path.join(out, "traces.ndjson")
     chk.traces = validate_traces(chk, prop, tp)
